@@ -1858,7 +1858,7 @@ class C02(PropBase):
     def encode_all(self, token_lists):
         exe = vlib.ocaml_build(self.pid)
         lines = ["E " + " ".join(map(str, t)) for t in token_lists]
-        ans, dead = vlib.run_lines([exe], lines, timeout=600, mem_gb=8)
+        ans, dead = vlib.run_lines([exe], lines, timeout=self.model_timeout, mem_gb=8)
         if dead:
             raise vlib.CheckFailure("model serializer died: %s" % (dead[:1],))
         return ans
@@ -1923,7 +1923,7 @@ class C02(PropBase):
             hexes[i] = h
         if xlines:
             exe = vlib.ocaml_build(self.pid)
-            got, dead = vlib.run_lines([exe], xlines, timeout=600, mem_gb=8)
+            got, dead = vlib.run_lines([exe], xlines, timeout=self.model_timeout, mem_gb=8)
             bad = [(l, g) for l, g, w in zip(xlines, got, xwant) if g != w]
             if dead or bad:
                 raise vlib.CheckFailure("the extracted Coq serializer of a round-4 stream and the plugin's writer disagree: %s" % (str((dead or bad)[:1])[:600],))
@@ -2132,7 +2132,7 @@ class C02(PropBase):
             if not ans or ans[0] is None:
                 continue
             exe = ctx["exes"][(self.bins[0], prof)]
-            tans, dead = vlib.run_lines([exe], [twin], timeout=120, mem_gb=self.impl_mem_gb)
+            tans, dead = vlib.run_lines([exe], [twin], timeout=self.impl_timeout, mem_gb=self.impl_mem_gb)
             if dead or tans[0] is None:
                 out.append({"case": twin, "profile": prof, "found_input": True, "what": "implementation died on the other byte order of this model"})
                 continue
